@@ -32,7 +32,9 @@ EXTENDS Integers, Sequences, FiniteSets, TLC
 CONSTANTS MaxEntries,   \* bound on entries built by the constructor actions
           MaxRefs,      \* bound on address references (operands / #R) in a built site
           Types,        \* entry types the constructor may use
+          Pts,          \* numbers of extra instructions (entry points) an entry may get
           Layouts,      \* path layouts (indices into LayoutTable) the constructor may use
+          AnchorKinds,  \* AddressAnchor kinds the constructor may use
           Deviation     \* "none" | "single-remote-operand" (skoolkit's behaviour, see RefLink)
 
 VARIABLES site, files, written, links, todo
@@ -129,9 +131,9 @@ WriteFile(p, ids, lks) ==
   /\ files' = [q \in DOMAIN files \cup {p} |-> IF q = p THEN ids ELSE files[q]]
   /\ written' = Append(written, p)
   /\ links' = {l \in links : l.src # p}
-              \cup {[src |-> p, to |-> Resolve(p, lks[i].href), frag |-> lks[i].frag] : i \in DOMAIN lks}
+              \cup {[src |-> p, to |-> Resolve(p, l.href), frag |-> l.frag] : l \in lks}
 
-CopyResource(p) == WriteFile(p, <<>>, <<>>)
+CopyResource(p) == WriteFile(p, <<>>, {})
 
 \* an empty image file is deleted again by the writer
 RemoveFile(p) ==
@@ -200,18 +202,20 @@ EmptySite(lay, single, ak) ==
    pages |-> <<[path |-> L.page, ids |-> <<"s1">>, refs |-> <<>>]>>,
    w |-> AllFlags]
 
-Init == /\ site \in {EmptySite(lay, sp, ak) : lay \in Layouts, sp \in 0..1, ak \in {"d", "x"}}
-        /\ files = << >> /\ written = <<>> /\ links = {} /\ todo = <<"build">>
+BuildMark == << <<"#build">> >>           \* todo while the constructor actions are still shaping the site
+Init == /\ site \in {EmptySite(lay, sp, ak) : lay \in Layouts, sp \in 0..1, ak \in AnchorKinds}
+        /\ files = << >> /\ written = <<>> /\ links = {} /\ todo = BuildMark
 
-Building == todo = <<"build">>
+Building == todo = BuildMark
 CodeBase(c) == IF c = 1 THEN 32768 ELSE 49152
 NumRefs(s) == LET RECURSIVE Sum(_) Sum(q) == IF q = <<>> THEN 0 ELSE Len(Head(q).refs) + Sum(Tail(q))
               IN Sum(s.entries) + Sum(s.pages)
 
-\* constructor: the next entry of code c (addresses ascend inside a code); pts extra instructions, the
-\* second of which carries a mid-block comment
+\* constructor: the next entry of code c (addresses ascend inside a code, main code first - the order of
+\* the two skool files is immaterial); pts extra instructions, the second of which carries a mid-block comment
 AddEntry(t, c, pts) ==
-  /\ Building /\ Len(site.entries) < MaxEntries
+  /\ Building /\ Len(site.entries) < MaxEntries /\ NumRefs(site) = 0
+  /\ \A e \in Entries(site) : e.c <= c
   /\ LET a == CodeBase(c) + (16 * Cardinality({e \in Entries(site) : e.c = c}))
          e == [a |-> a, t |-> t, c |-> c, ins |-> [i \in 1..(1 + pts) |-> a + (3 * (i - 1))],
                bc |-> IF pts >= 1 THEN <<a + 3>> ELSE <<>>, refs |-> <<>>]
@@ -235,7 +239,8 @@ AddPageRef(j, k) ==
 
 \* ---- what each page contains according to the documentation ----
 Href(s, p, t, frag) == [href |-> Rel(Dir(p), t), frag |-> frag]
-SetToSeq(S) == CHOOSE q \in [1..Cardinality(S) -> S] : Range(q) = S
+RECURSIVE SetToSeq(_)
+SetToSeq(S) == IF S = {} THEN <<>> ELSE LET x == CHOOSE x \in S : TRUE IN <<x>> \o SetToSeq(S \ {x})
 Container(s, r) == {e \in Real(s) : e.c = r.c /\ r.a \in Range(e.ins)}
 
 \* a reference from page p (belonging to entry `from`, or to no entry: from = <<>>) to address r.a of code r.c:
@@ -273,7 +278,7 @@ CodeSeq(s, c) == LET S == OfCode(s, c) IN
 
 \* contents [ids, lks] of the documented file p (p is one of the expected files)
 DocFile(s, p) ==
-  LET lk(S) == SetToSeq(S \cup Std(s, p)) IN
+  LET lk(S) == S \cup Std(s, p) IN
   IF p = s.index THEN
     [ids |-> <<>>, lks |-> lk({Href(s, p, m.path, "") : m \in WrittenMaps(s)}
                                \cup {Href(s, p, s.codes[c].map, "") : c \in OtherCodes(s)}
@@ -303,7 +308,7 @@ DocFile(s, p) ==
 
 \* the order in which skool2html writes (commands.rst: resources, disassembly, maps, pages, other code, index)
 Plan(s) ==
-  LET sq(S) == IF S = {} THEN <<>> ELSE SetToSeq(S) IN
+  LET sq(S) == SetToSeq(S) IN
   s.res \o sq(ExpectedFor(s, {"d"})) \o sq(ExpectedFor(s, {"m"})) \o sq(ExpectedFor(s, {"P"}))
         \o sq(ExpectedFor(s, {"o"})) \o sq(ExpectedFor(s, {"i"}))
 
@@ -322,7 +327,7 @@ WriteNext ==
   /\ todo' = Tail(todo)
   /\ UNCHANGED site
 
-Next == \/ \E t \in Types, c \in 1..2, pts \in 0..2 : AddEntry(t, c, pts)
+Next == \/ \E t \in Types, c \in 1..2, pts \in Pts : AddEntry(t, c, pts)
         \/ \E i, j \in 1..MaxEntries, k \in 1..3 : AddRef(i, j, k)
         \/ \E j \in 1..MaxEntries, k \in 1..3 : AddPageRef(j, k)
         \/ Finish
